@@ -3,7 +3,6 @@ package main
 import (
 	"fmt"
 	"go/types"
-	"os"
 	"sort"
 	"strings"
 
@@ -45,6 +44,12 @@ func (ex *Exec) intrinsic(fn *ssa.Function, args []Value) (Value, bool) {
 				panic(unsupported("verifBound: no bound named " + k))
 			}
 			return ex.ts.Const(64, uint64(v)), true
+		case "verifBoundOr": // an optional bound of a shared harness: absent = the default (recorded like any other bound)
+			k := ex.describe(args[0])
+			if v, ok := ex.bounds[k]; ok {
+				return ex.ts.Const(64, uint64(v)), true
+			}
+			return args[1], true
 		case "verifAssume":
 			c := args[0].(*Term)
 			if !c.IsConst() {
@@ -152,11 +157,20 @@ func (ex *Exec) intrinsic(fn *ssa.Function, args []Value) (Value, bool) {
 		// rendering (clock, speed and percentage floats, layout) is decided separately (C20 A/B/D); here a render is just
 		// an observable write of one marker byte through the real writeProgress, so that harnesses see THAT a line was drawn
 		ex.stubsUsed[name]++
-		if os.Getenv("VSYM_REAL_SHOWPROGRESS") == "" {
+		if ex.bounds["REALSHOW"] == 0 {
 			wp := ex.pkg.Prog.LookupMethod(types.NewPointer(ex.pkg.Type("textProgressBar").Type()), ex.pkg.Pkg, "writeProgress")
 			ex.call(Closure{fn: wp}, []Value{args[0], ex.strConst("R")}, nil)
 			return nil, true
 		}
+	case "github.com/trzsz/trzsz-go/trzsz.convertSizeToString", "github.com/trzsz/trzsz-go/trzsz.convertTimeToString":
+		// float formatting of sizes and durations: a contract stub — 3..24 printable ASCII characters
+		ex.stubsUsed[name+" (3..24 ASCII)"]++
+		l := ex.nondet(64)
+		ex.assume(ex.ts.And(ex.ts.Bin(OpSLe, ex.ts.Const(64, 3), l), ex.ts.Bin(OpSLe, l, ex.ts.Const(64, 24))))
+		return Rope{[]Seg{{opaque: true, ln: l, wd: l}}}, true
+	case "(*github.com/trzsz/trzsz-go/trzsz.recentSpeed).getSpeed":
+		ex.stubsUsed[name+" (free float)"]++
+		return FVal{"free", nil}, true
 	case "(*github.com/trzsz/trzsz-go/trzsz.trzszTransfer).resetTerm":
 		// terminal restore and message printing on the real stdout: outside every claim
 		ex.stubsUsed[name]++
